@@ -186,7 +186,7 @@ func c14Keys(c *Ctx) {
 // scripted lifetime scenarios (real time): a decision cached under a positive lifetime must not be served
 // after the lifetime; one cached under lifetime 0 never expires
 func c14Lifetime(c *Ctx, synced bool) {
-	for variant := 0; variant < 3; variant++ {
+	for variant := 0; variant < 4; variant++ {
 		cs := newC14Case(synced)
 		s := "0"
 		if synced {
@@ -232,6 +232,25 @@ func c14Lifetime(c *Ctx, synced bool) {
 			_, _ = cs.direct.AddNamedPolicy("p", []string{"alice", "data1", "read"})
 			time.Sleep(ttlUnit + ttlUnit/3)
 			c.W.Op("tick 400", "#")
+			enf()
+		case 3: // a hit inside the lifetime does not prolong it: cached at 0, hit at 200 ms, asked again at 350 ms
+			cs.api.SetExpireTime(ttlUnit)
+			c.W.Op("cttl 300", "#")
+			enf()
+			_, _ = cs.direct.AddNamedPolicy("p", []string{"alice", "data1", "read"})
+			time.Sleep(2 * ttlUnit / 3)
+			if time.Since(start) > ttlUnit-ttlUnit/6 {
+				c.Count("ttl_case_abandoned", 1)
+				continue
+			}
+			c.W.Op("tick 200", "#")
+			enf()
+			time.Sleep(ttlUnit / 2)
+			if el := time.Since(start); el < ttlUnit+ttlUnit/20 || el > 5*ttlUnit/3-ttlUnit/10 {
+				c.Count("ttl_case_abandoned", 1)
+				continue
+			}
+			c.W.Op("tick 150", "#")
 			enf()
 		case 2: // re-cached after expiry: the new entry lives for a full lifetime again
 			cs.api.SetExpireTime(ttlUnit)
